@@ -208,6 +208,8 @@ fn scenario_spec<S: Inner + Clone + 'static>(ctx: &mut Ctx, kind_name: &str, lab
 }
 
 pub fn gen(ctx: &mut Ctx) {
+    // every line is written out at once: if a ceremony never returns, the stream ends with the scenario it belongs to
+    ctx.flush_each = true;
     let rp = "example.com";
     // ---- registrations of both kinds on stores of every capability behind both wrappers (all interleavings)
     for wrapper in 0..2 {
